@@ -22,6 +22,8 @@ package cdc
 //     goroutine of Raft); the entries VerifC25bSnapshotRace* explore it with both outcomes of
 //     every select that has several ready cases and with preemptions (verifSchedWindow), and
 //     replay natively with the forced schedule and forced select choices (spec "force_select").
+//     The entries VerifC25bBusyEndpoint* make the endpoint slow (a transmission is answered when
+//     the harness says so): there the stimuli arrive while the leader loop is inside sink.Write.
 //
 // Oracle (property statement, cdc/DESIGN.md, doc comments of the Service fields):
 //   - every message delivered to the endpoint is one of the groups handed to the service, with the
